@@ -249,24 +249,42 @@ struct Names {
     ever: BTreeSet<String>,
 }
 
-/// Every manager owns a worker thread and a gc thread which terminate asynchronously after the
-/// last reference is dropped. Hundreds of thousands of short-lived managers would otherwise pile
-/// up threads faster than the OS reaps them: wait until the old ones are gone.
+/// Every manager owns a worker thread and a gc thread. The gc thread only terminates if it is
+/// already waiting on its condition variable when the last `ManagerRef` is dropped (the `Quit`
+/// notification is lost otherwise and thread + manager stay around forever), so a manager that
+/// lived for a few microseconds must not be dropped right away: retired managers are parked and
+/// dropped 256 cases later. As a second line of defence wait (bounded) while there are
+/// implausibly many threads.
 fn fresh_manager() -> BDDManagerRef {
     use std::sync::atomic::{AtomicU32, Ordering};
     static CREATED: AtomicU32 = AtomicU32::new(0);
-    if CREATED.fetch_add(1, Ordering::Relaxed) % 64 == 63 {
-        for _ in 0..20_000 {
+    if CREATED.fetch_add(1, Ordering::Relaxed) % 256 == 255 {
+        for _ in 0..2_000 {
             let threads = std::fs::read_to_string("/proc/self/status")
                 .ok()
                 .and_then(|s| s.lines().find_map(|l| l.strip_prefix("Threads:").and_then(|x| x.trim().parse::<u32>().ok())));
             match threads {
-                Some(t) if t > 24 => std::thread::sleep(std::time::Duration::from_micros(200)),
+                Some(t) if t > 2_000 => std::thread::sleep(std::time::Duration::from_millis(1)),
                 _ => break,
             }
         }
     }
     oxidd::bdd::new_manager(1024, 1024, 1)
+}
+
+fn retire(m: BDDManagerRef) {
+    use std::cell::RefCell;
+    use std::collections::VecDeque;
+    thread_local! {
+        static PARKED: RefCell<VecDeque<BDDManagerRef>> = RefCell::new(VecDeque::new());
+    }
+    PARKED.with(|p| {
+        let mut p = p.borrow_mut();
+        p.push_back(m);
+        if p.len() > 256 {
+            drop(p.pop_front());
+        }
+    });
 }
 
 impl Names {
@@ -489,7 +507,7 @@ impl Scenario for Names {
     fn reset(&mut self) {
         self.handles.clear();
         self.bare = VarNameMap::new();
-        self.mref = fresh_manager();
+        retire(std::mem::replace(&mut self.mref, fresh_manager()));
         self.reference = Ref::default();
         self.ever.clear();
     }
